@@ -343,3 +343,80 @@ def kbmag_records(tier, rng, rep):
                 rep.fail("kbmag_views", err, inp)
         rep.attempt("kbmag_load_runs", inp, body)
         rep.case(key=(t,), nontrivial=n >= 2, sample={"text": text[:400]} if t == 1 else None)
+
+
+# ------------------------------------------------------------------------------ vertex names and labels that are falsy / not strings
+ODD_VERTS = [0, "", (1, 0)]
+ODD_LABELS = [0, 1, "", (), "ab"]
+
+
+def _odd_ops():
+    ops = []
+    for v in ODD_VERTS:
+        ops.append(("add_vertex", v)); ops.append(("delete_vertex", v))
+        for w in ODD_VERTS:
+            for l in ODD_LABELS:
+                ops.append(("add_edge", v, w, l))
+            ops.append(("add_edges_elist", v, w, (0, "")))
+            ops.append(("add_edges_elist", v, w, (1, (), "ab")))
+    ops += [("rename_perm",), ("recurrent_inplace",), ("copy",)]
+    return ops
+
+
+def _apply_odd(F, M, op):
+    if op[0] == "rename_perm":
+        mp = {0: 1, 1: 0, "": (), (): "", "ab": "ab"}
+        F.rename_generators(mp); M.rename(mp)
+        return F, M, True
+    return apply_op(F, M, op)
+
+
+@bounded(P, "histories_with_falsy_names", functions=F_ALL,
+         note="the same histories over vertex names {0, '', (1,0)} and labels {0, 1, '', (), 'ab'} (integer generator indices are what the Coxeter automaton generator uses): "
+              "a falsy label or vertex name is a name like any other")
+def histories_with_falsy_names(tier, rng, rep):
+    depth = 2
+    N = 3000 if tier == 'thorough' else 600
+    ops = _odd_ops()
+    rep.rule = f"every sequence of <= {depth} of {len(ops)} operations from the empty automaton and from a 2-vertex automaton with labels 0 and ''; {N} random histories of length 3..15; compared with the set model after every step"
+    rep.bound = f"depth {depth} exhaustive + {N} random"
+
+    def start(kind):
+        if kind == "empty":
+            return fsa.FSA({}, start_vertices=[0]), Model()
+        d = {0: {0: "", "": 0}, "": {1: ""}}
+        return fsa.FSA({k: dict(v) for k, v in d.items()}, [0]), Model.from_graph_dict(d)
+
+    def run(kind, seq):
+        F, M = start(kind)
+        hist = [kind]
+        err = coherence_error(F, M)
+        napp = 0
+        if err is None:
+            for op in seq:
+                hist.append(op)
+                try:
+                    F, M, ok = _apply_odd(F, M, op)
+                except Exception as e:
+                    err = f"raised {type(e).__name__}: {e}"
+                    break
+                napp += ok
+                err = coherence_error(F, M)
+                if err:
+                    break
+        if err:
+            rep.fail("views_coherent_and_equal_model", f"after {hist}: {err}", {"history": [repr(h_) for h_ in hist]})
+        return napp
+    for kind in ("empty", "falsy_graph_dict"):
+        for L in range(0, depth + 1):
+            for seq in itertools.product(ops, repeat=L):
+                napp = run(kind, seq)
+                rep.case(key=(kind, seq), nontrivial=napp >= 2, sample={"history": [kind] + [repr(o) for o in seq]} if (L == 2 and rep.evaluations == 500) else None)
+                if len(rep.failures) >= 3:
+                    return
+    for t in range(N):
+        seq = [ops[int(rng.integers(0, len(ops)))] for _ in range(int(rng.integers(3, 16)))]
+        napp = run(("empty", "falsy_graph_dict")[t % 2], seq)
+        rep.case(key=("random", t), nontrivial=napp >= 3)
+        if len(rep.failures) >= 3:
+            return
